@@ -231,6 +231,9 @@ func vc29WorkDir() string {
 func vc29OpenFragment(path string, shard uint64, maxOpN int, q chan *fragment, ftype ...string) (*fragment, error) {
 	f := newFragment(path, "i", "f", viewStandard, shard, 0)
 	f.CacheType = CacheTypeRanked
+	if len(ftype) > 1 && ftype[1] != "" {
+		f.CacheType = ftype[1] // ranked, lru or none
+	}
 	if len(ftype) > 0 {
 		switch ftype[0] {
 		case FieldTypeMutex:
@@ -427,6 +430,7 @@ func TestVerifC29_Fragment(t *testing.T) {
 		maxOpN := rapid.SampledFrom([]int{2, 5, 20, 0}).Draw(t, "maxOpN")
 		nFrags := rapid.IntRange(1, 2).Draw(t, "fragments")
 		ftype := rapid.SampledFrom([]string{FieldTypeSet, FieldTypeSet, FieldTypeMutex, FieldTypeBool}).Draw(t, "fragmentType")
+		cacheType := rapid.SampledFrom([]string{CacheTypeRanked, CacheTypeLRU, CacheTypeLRU, CacheTypeNone}).Draw(t, "cacheType")
 		type clientOp struct {
 			frag int
 			op   vc29Op
@@ -451,7 +455,7 @@ func TestVerifC29_Fragment(t *testing.T) {
 			}
 		}
 		var key strings.Builder
-		fmt.Fprintf(&key, "p%d m%d f%d %s", procs, maxOpN, nFrags, ftype)
+		fmt.Fprintf(&key, "p%d m%d f%d %s %s", procs, maxOpN, nFrags, ftype, cacheType)
 		for c := range plans {
 			fmt.Fprintf(&key, "|")
 			for _, co := range plans[c] {
@@ -471,7 +475,7 @@ func TestVerifC29_Fragment(t *testing.T) {
 		defer os.RemoveAll(dir)
 		frags := make([]*fragment, nFrags)
 		for i := range frags {
-			f, err := vc29OpenFragment(filepath.Join(dir, fmt.Sprint(i)), uint64(i), maxOpN, q, ftype)
+			f, err := vc29OpenFragment(filepath.Join(dir, fmt.Sprint(i)), uint64(i), maxOpN, q, ftype, cacheType)
 			if err != nil {
 				t.Fatalf("open fragment: %v", err)
 			}
@@ -504,6 +508,9 @@ func TestVerifC29_Fragment(t *testing.T) {
 						// moving Set() half-way; its counts are not constrained there
 						vkit.Excluded("DC6")
 						continue
+					}
+					if co.op.Kind == "topIDs" && cacheType == CacheTypeNone {
+						continue // without a cache top() reports nothing, by design
 					}
 					if co.op.Kind == "topIDs" {
 						// each row's count is looked up separately: two reads in one interval
@@ -565,7 +572,7 @@ func TestVerifC29_Fragment(t *testing.T) {
 			if err := f.Close(); err != nil {
 				t.Fatalf("close fragment %d: %v", fi, err)
 			}
-			f2, err := vc29OpenFragment(f.path, f.shard, 0, nil, ftype)
+			f2, err := vc29OpenFragment(f.path, f.shard, 0, nil, ftype, cacheType)
 			if err != nil {
 				t.Fatalf("C29 violated: fragment %d cannot be reopened after the workload: %v\n%s", fi, err, vc29FormatHistory(all))
 			}
@@ -582,7 +589,7 @@ func TestVerifC29_Fragment(t *testing.T) {
 				t.Fatalf("C29 violated: fragment %d holds %08b in memory after the workload but %08b after close and reopen\n%s", fi, final, disk, vc29FormatHistory(all))
 			}
 		}
-		cs.Class(fmt.Sprintf("clients:%d", nClients)).Class(fmt.Sprintf("gomaxprocs:%d", procs)).Class(fmt.Sprintf("fragments:%d", nFrags)).Class("type:" + ftype)
+		cs.Class(fmt.Sprintf("clients:%d", nClients)).Class(fmt.Sprintf("gomaxprocs:%d", procs)).Class(fmt.Sprintf("fragments:%d", nFrags)).Class("type:" + ftype).Class("cache:" + cacheType)
 		cs.NT(nontrivial)
 		cs.Sample(map[string]interface{}{"clients": nClients, "gomaxprocs": procs, "maxOpN": maxOpN, "fragments": nFrags, "ops_client0": len(plans[0])})
 	})
